@@ -513,6 +513,20 @@ class Blockwise(ArrayExpr):
             return self._shuffle_pushdown(parent, dependents)
         return None
 
+    def _contracts_by_concatenation(self):
+        """Whether some operand carries an index that is contracted with
+        ``concatenate=True``.
+
+        The blocks of such an operand are only meaningful to this node's
+        function (e.g. the per-chunk pieces of ``x[dask_int_index]``, whose
+        advertised extent along the contracted index is not an axis of the
+        blocks), so indexing the operand is not the same as indexing the result.
+        """
+        if not self.concatenate:
+            return False
+        out = set(self.out_ind)
+        return any(ind is not None and any(i not in out for i in ind) for ind in self.args[1::2])
+
     def _accept_shuffle(self, shuffle_expr):
         """Accept a shuffle being pushed through Blockwise.
 
@@ -524,6 +538,9 @@ class Blockwise(ArrayExpr):
 
         axis = shuffle_expr.axis
         out_ind = self.out_ind
+
+        if self._contracts_by_concatenation():
+            return None
 
         # Get the index label for the shuffle axis
         shuffle_ind = out_ind[axis]
@@ -599,6 +616,8 @@ class Blockwise(ArrayExpr):
 
         # Don't handle None/newaxis
         if any(idx is None for idx in index):
+            return None
+        if self._contracts_by_concatenation():
             return None
 
         # Pad index to full output length
